@@ -4,12 +4,17 @@ import (
 	"fmt"
 	"strings"
 
+	"github.com/gammazero/nexus/v3/wamp"
+
 	"verif/harness/hcommon"
 )
 
-// The witnesses of the `…_full_fails` theorems (Nexus.Client.Witness), as timed
-// scenarios for the real client. Each runs in its own child process on every
-// C17 run: the known wedges and crashes are exercised there and nowhere else.
+// The witness histories of Nexus.Client.Witness as timed scenarios for the real
+// client, each in its own child process on every run. Those of the defects
+// fixed by 652e15e / 710325f / aee6f97 / c166f26 (formerly F15, F16, F41, F42) are
+// regressions: the client must now behave as the fixed model says, and if the
+// defect returns the replay is reported as a violation with the witness as the
+// concrete failing input. The one open finding, F43, is replayed as such (C17 runs only).
 
 func wScenario(id int, cfg Cfg, end int, stims ...Stim) Scenario {
 	return normalise(Scenario{ID: id, Cfg: cfg, Stims: stims, End: end})
@@ -64,8 +69,10 @@ func dupInv() Scenario {
 		Stim{T: 500, Stim: "close"})
 }
 
-// closeRace (F43, observed, not modelled): an API call started at the very instant the session
-// ends passes its Connected() check and then sends on the channel Close() has closed.
+// closeRace (open finding F43; the model's own witness is Nexus.Client.Witness.closeRace, the CANCEL of
+// a Call whose context ends as Close() completes): API calls started while Close() waits for the
+// router's GOODBYE pass their Connected() check and block in their send, the router having stopped
+// reading; Close() then closes the channel under them.
 func closeRace(k int) Scenario {
 	st := []Stim{{T: 1, Stim: "close"}}
 	for j := 0; j <= k; j++ {
@@ -74,16 +81,57 @@ func closeRace(k int) Scenario {
 	return wScenario(9040+k, Cfg{Timeout: 100, GoodbyeReply: 8, StallAfterGoodbye: true}, 0, st...)
 }
 
-// witnessReplays replays the Lean witnesses against the real client and checks
-// that it fails the way the model says.
-func witnessReplays(dir string, sum *hcommon.Summary) []hcommon.Disagreement {
-	var out []hcommon.Disagreement
-	w, err := driverQuery([]string{`{"q":"witness","name":"f16"}`, `{"q":"witness","name":"f16dup"}`,
-		`{"q":"witness","name":"pptabort"}`, `{"q":"witness","name":"dupinv"}`})
-	if err != nil {
-		return []hcommon.Disagreement{{Detail: "model driver failed: " + err.Error()}}
+// progChunks: by design, not a finding — progressive chunks arriving faster than the handler takes
+// them make the loop wait; the wait ends when the handler returns (here after 30 ms), and the reply
+// queued behind the chunks is then handed over.
+func progChunks() Scenario {
+	prog := map[string]any{"progress": true}
+	return wScenario(9050, Cfg{Timeout: 100, GoodbyeReply: 0, DealerPPT: true,
+		Behav: map[string]Behav{"p1": {Delay: 30, Res: string(wamp.InternalProgressiveOmitResult)}}}, 0,
+		Stim{T: 0, Stim: "api", G: 1, Op: "register", Name: "p1"},
+		Stim{T: 1, Stim: "router", M: []any{65.0, map[string]any{"$req": 1}, 9.0}},
+		Stim{T: 5, Stim: "router", M: []any{68.0, 1.0, 9.0, prog, []any{1.0}, map[string]any{}}},
+		Stim{T: 6, Stim: "router", M: []any{68.0, 1.0, 9.0, prog, []any{2.0}, map[string]any{}}},
+		Stim{T: 7, Stim: "router", M: []any{68.0, 1.0, 9.0, prog, []any{3.0}, map[string]any{}}},
+		Stim{T: 8, Stim: "router", M: []any{68.0, 1.0, 9.0, map[string]any{}, []any{4.0}, map[string]any{}}},
+		Stim{T: 9, Stim: "api", G: 2, Op: "subscribe", Name: "t2"},
+		Stim{T: 10, Stim: "router", M: []any{33.0, map[string]any{"$req": 2}, 6.0}},
+		Stim{T: 300, Stim: "close"})
+}
+
+// f15Scenarios: the former crash inputs of the PPT code, one per model site.
+func f15Scenarios() []Scenario {
+	ev := func(id int, details map[string]any, args []any) Scenario {
+		return wScenario(id, Cfg{Timeout: 100, GoodbyeReply: 0, DealerPPT: true}, 0,
+			Stim{T: 0, Stim: "api", G: 1, Op: "subscribe", Name: "t1"},
+			Stim{T: 1, Stim: "router", M: []any{33.0, map[string]any{"$req": 1}, 5.0}},
+			Stim{T: 3, Stim: "router", M: []any{36.0, 5.0, 7.0, details, args, map[string]any{}}},
+			Stim{T: 5, Stim: "router", M: []any{36.0, 5.0, 8.0, map[string]any{}, []any{1.0}, map[string]any{}}},
+			Stim{T: 20, Stim: "close"})
 	}
-	stuck := func(i int) bool { b, _ := w[i]["stuck"].(bool); return b }
+	nullBin := map[string]any{"$bin": "6e756c6c"}
+	scs := []Scenario{
+		ev(9060, map[string]any{"ppt_scheme": "mqtt"}, []any{}),
+		ev(9061, map[string]any{"ppt_scheme": "mqtt", "ppt_serializer": 7.0}, []any{nullBin}),
+		ev(9062, map[string]any{"ppt_scheme": "mqtt", "ppt_serializer": "json"}, []any{"str"}),
+		ev(9063, map[string]any{"ppt_scheme": "mqtt"}, []any{map[string]any{"a": 1.0}}),
+		ev(9064, map[string]any{"ppt_scheme": "mqtt"}, []any{map[string]any{"$payload": map[string]any{"nil": true}}}),
+		ev(9065, map[string]any{"ppt_scheme": "mqtt", "ppt_serializer": "json"}, []any{nullBin}),
+		ev(9066, map[string]any{"ppt_scheme": "wamp"}, []any{nullBin}),
+		ev(9067, map[string]any{"ppt_scheme": "wamp", "ppt_serializer": "cbor"}, []any{}),
+		ev(9068, map[string]any{"ppt_scheme": "wamp", "ppt_serializer": "cbor"}, []any{5.0}),
+	}
+	for i := range scs {
+		for _, ser := range []string{"json", "msgpack", "cbor"} {
+			scs[i].Cfg.Deser = append(scs[i].Cfg.Deser, deserOf(ser, []byte("null")))
+		}
+	}
+	return scs
+}
+
+// witnessReplays replays the witness histories against the real client.
+func witnessReplays(dir string, sum *hcommon.Summary, prop string) []hcommon.Disagreement {
+	var out []hcommon.Disagreement
 	run1 := func(sc Scenario) (Result, bool, string) {
 		rs, cid, tail := runChild(dir, []Scenario{sc})
 		sum.Evaluations++
@@ -92,128 +140,123 @@ func witnessReplays(dir string, sum *hcommon.Summary) []hcommon.Disagreement {
 		}
 		return rs[0], true, ""
 	}
-
-	// F16: reply at the timeout instant
-	hit := 0
-	var firstHit Result
-	var hitSc Scenario
-	for _, sc := range f16Variants() {
+	// regression: the client must satisfy the specification on the witness and do what the
+	// (fixed) model does under some schedule; extra expectations are checked by `want`.
+	regress := func(name string, sc Scenario, want func(Result) string) {
 		r, ok, tail := run1(sc)
 		if !ok {
-			out = append(out, hcommon.Disagreement{Input: sc, Impl: tail, SpecViolation: true, Detail: "F16 replay: the child died"})
-			continue
+			kind, fn, line := panicSite(tail)
+			out = append(out, hcommon.Disagreement{Input: sc, Impl: tail, SpecViolation: true,
+				Detail: fmt.Sprintf("regression %s: the client crashed the process (%s in %s: %s)", name, kind, fn, line)})
+			return
 		}
-		vs := check(sc, r, "C17")
-		for _, v := range vs {
-			if v.Finding == findingWedge {
-				if hit == 0 {
-					firstHit, hitSc = r, sc
-				}
-				hit++
-			} else {
-				out = append(out, hcommon.Disagreement{Input: concreteOf(sc, r), Impl: r.Out, SpecViolation: true,
-					Detail: fmt.Sprintf("F16 replay %d: %s: %s", sc.ID, v.Clause, v.Detail)})
-			}
+		bad := false
+		for _, v := range check(sc, r, prop) {
+			bad = true
+			out = append(out, hcommon.Disagreement{Input: concreteOf(sc, r), Impl: r.Out, SpecViolation: true,
+				Detail: fmt.Sprintf("regression %s: %s: %s", name, v.Clause, v.Detail)})
 		}
-	}
-	sum.Count(fmt.Sprintf("witness.f16.wedged-%d-of-6", hit))
-	switch {
-	case hit > 0 && stuck(0):
+		if bad {
+			return
+		}
+		if msg := want(r); msg != "" {
+			out = append(out, hcommon.Disagreement{Input: concreteOf(sc, r), Impl: r.Out, SpecViolation: true,
+				Detail: fmt.Sprintf("regression %s: %s", name, msg)})
+			return
+		}
+		m, fd, mo, err := compareWithModel([]Scenario{concreteOf(sc, r)}, map[int]Result{sc.ID: r})
+		if err != nil {
+			out = append(out, hcommon.Disagreement{Detail: "model driver failed: " + err.Error()})
+			return
+		}
+		if _, ok := m[sc.ID]; !ok {
+			out = append(out, hcommon.Disagreement{Input: concreteOf(sc, r), Impl: r.Out, Model: mo[sc.ID].Out,
+				Detail: fmt.Sprintf("regression %s: model and implementation differ: impl %s / model %s", name, fd[sc.ID][0], fd[sc.ID][1])})
+			return
+		}
 		sum.TracesValidated++
-		out = append(out, hcommon.Disagreement{Input: concreteOf(hitSc, firstHit), Impl: firstHit.Out, Model: w[0], SpecViolation: true, Finding: findingWedge,
-			Detail: fmt.Sprintf("a reply arriving as its waiter times out wedges the receive loop in runSignalReply; later calls time out, Close() never returns (%d of 6 schedules; model witness run_never_stuck_full_fails agrees)", hit)})
-	case hit == 0 && stuck(0):
-		sum.Notes = append(sum.Notes, "F16 timing witness: none of the 6 schedules wedged this time (the duplicate-reply witness decides)")
-	case hit > 0:
-		out = append(out, hcommon.Disagreement{Input: concreteOf(hitSc, firstHit), Impl: firstHit.Out, Model: w[0], SpecViolation: true,
-			Detail: "the implementation wedges on a reply at the timeout instant but the model no longer predicts it"})
+		sum.Count("regression." + name + ".passed")
 	}
-
-	// F16: duplicate reply (whether run or the waiter goes first after the rendezvous is the scheduler's choice)
-	{
-		hits := 0
-		var hr Result
-		var hsc Scenario
-		for k := 0; k < 4; k++ {
-			sc := f16Dup()
-			sc.ID += k
-			r, ok, tail := run1(sc)
-			if !ok {
-				out = append(out, hcommon.Disagreement{Input: sc, Impl: tail, SpecViolation: true, Detail: "F16 duplicate-reply replay: the child died"})
-				continue
-			}
-			for _, v := range check(sc, r, "C17") {
-				if v.Finding == findingWedge {
-					if hits == 0 {
-						hr, hsc = r, sc
-					}
-					hits++
-				} else {
-					out = append(out, hcommon.Disagreement{Input: concreteOf(sc, r), Impl: r.Out, SpecViolation: true,
-						Detail: fmt.Sprintf("F16 duplicate-reply replay: %s: %s", v.Clause, v.Detail)})
-				}
+	retOf := func(r Result, g int) string {
+		for _, o := range r.Out {
+			if o[1] == "ret" && int(num(o[2])) == g && len(o) > 3 {
+				return strOf(o[3])
 			}
 		}
-		sum.Count(fmt.Sprintf("witness.f16dup.wedged-%d-of-4", hits))
-		switch {
-		case hits > 0 && stuck(1):
-			sum.TracesValidated++
-			out = append(out, hcommon.Disagreement{Input: concreteOf(hsc, hr), Impl: hr.Out, Model: w[1], SpecViolation: true, Finding: findingWedge,
-				Detail: fmt.Sprintf("a router that answers one request twice wedges the receive loop in runSignalReply; later calls time out, Close() never returns (%d of 4 runs; model witness agrees)", hits)})
-		case hits > 0:
-			out = append(out, hcommon.Disagreement{Input: concreteOf(hsc, hr), Impl: hr.Out, Model: w[1], SpecViolation: true,
-				Detail: "the implementation wedges on a duplicate reply but the model no longer predicts it"})
-		case stuck(1):
-			sum.Notes = append(sum.Notes, "F16 duplicate-reply witness: none of the 4 runs wedged this time")
-		}
+		return ""
 	}
-
-	// F41: PPT result from a router that did not announce the feature, then Close
-	{
-		sc := pptAbort()
-		r, ok, tail := run1(sc)
-		mc, _ := w[2]["crashed"].(string)
-		switch {
-		case !ok:
-			out = append(out, hcommon.Disagreement{Input: sc, Impl: tail, SpecViolation: true, Detail: "ppt-abort replay: the child died"})
-		case strings.Contains(r.Panic, "closed channel") && strings.Contains(mc, "closed channel"):
-			sum.TracesValidated++
-			sum.Count("witness.pptabort.panicked")
-			out = append(out, hcommon.Disagreement{Input: concreteOf(sc, r), Impl: r.Panic, Model: mc, SpecViolation: true, Finding: findingPPTAbort,
-				Detail: "a RESULT using ppt_scheme from a router that did not announce PPT makes Call close the session's send side; the next send (Close's GOODBYE) panics: " + r.Panic})
-		case (r.Panic != "") != (mc != ""):
-			out = append(out, hcommon.Disagreement{Input: concreteOf(sc, r), Impl: r.Panic, Model: mc, SpecViolation: r.Panic != "",
-				Detail: fmt.Sprintf("ppt-abort witness: implementation panic=%q, model crash=%q", r.Panic, mc)})
-		}
-	}
-
-	// F42: three INVOCATIONs with one request id
-	{
-		sc := dupInv()
-		r, ok, tail := run1(sc)
-		wf := false
-		if ok {
-			for _, v := range check(sc, r, "C17") {
-				if v.Finding == findingDupInv {
-					wf = true
-				}
+	count := func(r Result, kind string) int {
+		n := 0
+		for _, o := range r.Out {
+			if o[1] == kind {
+				n++
 			}
 		}
-		switch {
-		case !ok:
-			out = append(out, hcommon.Disagreement{Input: sc, Impl: tail, SpecViolation: true, Detail: "dup-invocation replay: the child died"})
-		case wf && stuck(3):
-			sum.TracesValidated++
-			sum.Count("witness.dupinv.wedged")
-			out = append(out, hcommon.Disagreement{Input: concreteOf(sc, r), Impl: r.Out, Model: w[3], SpecViolation: true, Finding: findingDupInv,
-				Detail: "three INVOCATIONs repeating a live request id block the receive loop in `handlerQueue <- msg`; the INTERRUPT behind them is never read, Close() never returns"})
-		case wf != stuck(3):
-			out = append(out, hcommon.Disagreement{Input: concreteOf(sc, r), Impl: r.Out, Model: w[3], SpecViolation: wf,
-				Detail: fmt.Sprintf("dup-invocation witness: implementation wedged=%v, model stuck=%v", wf, stuck(3))})
-		}
+		return n
 	}
-	// F43: API call racing with Close (guarded in the generator; not in the Lean model)
-	{
+	closed := func(r Result) string {
+		if !r.CloseReturned {
+			return "Close() did not return"
+		}
+		return ""
+	}
+
+	// formerly F16: reply at the timeout instant (six schedules), and the duplicate reply
+	for _, sc := range f16Variants() {
+		regress(fmt.Sprintf("f16-reply-at-timeout-%d", sc.ID-9000), sc, func(r Result) string {
+			if retOf(r, 50) != "ok" {
+				return "a Subscribe issued after the reply-at-timeout instant returned " + retOf(r, 50) + " (the receive loop is not processing replies)"
+			}
+			return closed(r)
+		})
+	}
+	for k := 0; k < 3; k++ {
+		sc := f16Dup()
+		sc.ID += k
+		regress(fmt.Sprintf("f16-duplicate-reply-%d", k), sc, func(r Result) string {
+			if retOf(r, 2) != "ok" {
+				return "a Subscribe issued after a duplicate reply returned " + retOf(r, 2)
+			}
+			return closed(r)
+		})
+	}
+	// formerly F41: PPT result from a router that did not announce the feature, then Close
+	regress("f41-ppt-abort-then-close", pptAbort(), func(r Result) string {
+		if retOf(r, 1) != "pptabort" {
+			return "Call returned " + retOf(r, 1) + ", expected the protocol-violation error"
+		}
+		return closed(r)
+	})
+	// formerly F42: three INVOCATIONs with one request id, then INTERRUPT
+	regress("f42-repeated-invocation", dupInv(), func(r Result) string {
+		if n := count(r, "inv"); n != 1 {
+			return fmt.Sprintf("the handler ran %d times for three INVOCATIONs with one id", n)
+		}
+		return closed(r)
+	})
+	// by design: progressive chunks faster than the handler (the loop waits, then goes on)
+	regress("progressive-backpressure", progChunks(), func(r Result) string {
+		if n := count(r, "inv"); n != 4 {
+			return fmt.Sprintf("the handler ran %d times for four chunks", n)
+		}
+		if retOf(r, 2) != "ok" {
+			return "a Subscribe answered while the loop waited behind the chunks returned " + retOf(r, 2)
+		}
+		return closed(r)
+	})
+	// formerly F15: every former crash input of the PPT code is answered with an error
+	for _, sc := range f15Scenarios() {
+		regress(fmt.Sprintf("f15-ppt-input-%d", sc.ID-9060), sc, func(r Result) string {
+			if n := count(r, "event"); n != 1 {
+				return fmt.Sprintf("%d events reached the handler, expected only the one after the malformed PPT event", n)
+			}
+			return closed(r)
+		})
+	}
+
+	// F43 (open, listed under C17 only): a goroutine of the client sending while Close() closes
+	// the send channel
+	if prop == "C17" {
 		hits := 0
 		var hr Result
 		var hsc Scenario
@@ -226,7 +269,7 @@ func witnessReplays(dir string, sum *hcommon.Summary) []hcommon.Disagreement {
 				}
 				continue
 			}
-			if strings.Contains(r.Panic, "closed channel") {
+			if strings.Contains(r.Panic, "send on closed channel") {
 				if hits == 0 {
 					hr, hsc = r, sc
 				}
